@@ -406,7 +406,7 @@ theorem pairsInv_step (done : List Nat) (a : Nat) (rest : List Nat) (b : Bridgin
       | none =>
         have : rest = [] := by simpa using hr
         subst this
-        simp only [List.getLast?_append, List.getLast?_cons_cons, List.getLast?_singleton]
+        simp only [List.getLast?_append, List.getLast?_singleton]
         simp [h.regRest x (by simp)]
       | some d =>
         have hdm : d ∈ rest := List.mem_of_getLast? hr
